@@ -39,7 +39,7 @@ FLAVOURS = {
 WRAPS = """clock_gettime nanosleep clock_nanosleep sigtimedwait
 kill setxattr getxattr fgetxattr syscall
 open open64 openat openat64 fopen fopen64 close write read
-opendir fdopendir readdir readdir64 closedir faccessat
+opendir fdopendir readdir readdir64 closedir faccessat fdopen
 sd_bus_open_system sd_bus_call_method sd_bus_message_read sd_bus_unref
 sd_bus_close sd_bus_message_unref sd_bus_error_free
 """.split()
